@@ -304,8 +304,18 @@ def _neg_list(xs):
     return [None if x is None else core.fr(-F(x)) for x in xs]
 
 
+def _exact64(xs):
+    """every value of the list is a float64 exactly (a shift must not round: 2^-30 beside 2^27 needs 57 bits)"""
+    return all(x is None or F(float(F(x))) == F(x) for x in xs)
+
+
 def transforms(name, c, rng):
     """-> list of (label, transformed case, how to map the flags: 'same' | 'reverse')"""
+    return [t for t in _transforms(name, c, rng)
+            if all(_exact64(t[1][k]) for k in ("xs", "rho") if isinstance(t[1].get(k), list))]
+
+
+def _transforms(name, c, rng):
     out = []
     cv = F(rng.choice([-320, -64, 16, 48, 640]), 64)
     ct = rng.choice([1, 17, 3600, 86400, 1000003])
